@@ -366,8 +366,8 @@ impl Prop for ConnProp {
     fn describe(&self) -> Describe {
         Describe {
             level: "exploration",
-            rule: "each case = one seeded run of 2-4 complete litep2p nodes, each with two probe user protocols, on SimNet: materialised application dials (by peer id, by well-formed and adversarial addresses, simultaneous mutual dials), substream opens, force-closes, protocol exits, fault plan (resets, half-closes, byte-offset cuts and single-bit corruption in flight, partitions, refused / black-holed / slow connects, node kill with reset or silent vanish, crash + restart with the same identity, process stalls), connection limits, scheduler kind and knobs, followed by a fault-free final phase that re-dials every disconnected pair; non-trivial = scheduler had >=1 choice point; distinct = distinct trace hash (scheduler decisions + every recorded event with virtual timestamp)".into(),
-            real: vec!["Litep2p", "TransportManager + PeerState + AddressStore + ConnectionLimits", "TcpTransport/TcpConnection", "multistream-select", "Noise", "yamux", "ProtocolSet", "TransportService", "UserProtocol probes"],
+            rule: "each case = one seeded run of 2-4 complete litep2p nodes, each with two probe user protocols, on SimNet: materialised application dials (by peer id, by well-formed and adversarial addresses, simultaneous mutual dials), substream opens, force-closes, protocol exits, fault plan (resets, half-closes, byte-offset cuts and single-bit corruption in flight, partitions, refused / black-holed / slow connects, node kill with reset or silent vanish, crash + restart with the same identity, process stalls), connection limits, scheduler kind and knobs, in a third of the runs a second transport (WebSocket) mixed with TCP (peers known by both addresses, dials by peer id open on both transports), in an eighth of the C07/C08 runs the two-connection loss pattern (mutual dial, stalled peer, opens in flight, the two connections reset one after the other), followed by a fault-free final phase that re-dials every disconnected pair; non-trivial = scheduler had >=1 choice point; distinct = distinct trace hash (scheduler decisions + every recorded event with virtual timestamp)".into(),
+            real: vec!["Litep2p", "TransportManager + PeerState + AddressStore + ConnectionLimits", "TcpTransport/TcpConnection", "WebSocketTransport/WebSocketConnection + tokio-tungstenite (runs with the second transport)", "multistream-select", "Noise", "yamux", "ProtocolSet", "TransportService", "UserProtocol probes"],
             stub: vec!["socket layer (SimNet)", "clock", "task scheduler (seeded)", "HashMap seeds"],
             assumptions: vec![
                 "pre-emption granularity is the task poll",
